@@ -30,6 +30,10 @@ pub enum Fault {
     HexToken { index: usize, text: String },
     /// token-aligned overwrite: the k-th name token `/..` is replaced
     NameToken { index: usize, text: String },
+    /// the k-th string token (literal or hexadecimal) is rewritten with another length (cut, or
+    /// extended with `fill`); the classic cross-reference table and startxref behind it are shifted
+    /// so that the rest of the document stays readable
+    StringResize { index: usize, len: usize, fill: u8 },
 }
 
 const SECTOR: usize = 512;
@@ -48,6 +52,7 @@ impl Fault {
             Fault::JunkPrefix { .. } => "junk_prefix",
             Fault::HexToken { .. } => "hex_token",
             Fault::NameToken { .. } => "name_token",
+            Fault::StringResize { .. } => "string_resize",
         }
     }
     pub fn apply(&self, b: &mut Vec<u8>) -> bool {
@@ -194,6 +199,19 @@ impl Fault {
                 b.splice(s..e, t);
                 true
             }
+            Fault::StringResize { index, len, fill } => {
+                let toks = string_tokens(b);
+                if toks.is_empty() {
+                    return false;
+                }
+                let (s, e, mut content) = toks[index % toks.len()].clone();
+                content.resize(*len, *fill);
+                let text = format!("<{}>", hex(&content)).into_bytes();
+                let delta = text.len() as i64 - (e - s) as i64;
+                b.splice(s..e, text);
+                shift_offsets(b, s, delta);
+                true
+            }
         }
     }
     pub fn to_json(&self) -> J {
@@ -209,6 +227,7 @@ impl Fault {
             Fault::JunkPrefix { data } => json!({"kind": "junk_prefix", "data": hex(data)}),
             Fault::HexToken { index, text } => json!({"kind": "hex_token", "index": index, "text": text}),
             Fault::NameToken { index, text } => json!({"kind": "name_token", "index": index, "text": text}),
+            Fault::StringResize { index, len, fill } => json!({"kind": "string_resize", "index": index, "len": len, "fill": fill}),
         }
     }
     pub fn from_json(j: &J) -> Option<Fault> {
@@ -225,8 +244,175 @@ impl Fault {
             "junk_prefix" => Fault::JunkPrefix { data: unhex(j.get("data")?.as_str()?)? },
             "hex_token" => Fault::HexToken { index: u("index")?, text: j.get("text")?.as_str()?.to_string() },
             "name_token" => Fault::NameToken { index: u("index")?, text: j.get("text")?.as_str()?.to_string() },
+            "string_resize" => Fault::StringResize { index: u("index")?, len: u("len")?, fill: u("fill")? as u8 },
             _ => return None,
         })
+    }
+}
+
+/// String tokens outside stream data: (start, end, decoded content).
+pub fn string_tokens(b: &[u8]) -> Vec<(usize, usize, Vec<u8>)> {
+    let mut toks = vec![];
+    let mut i = 0;
+    while i < b.len() {
+        match b[i] {
+            b'(' => {
+                let s = i;
+                let mut depth = 0usize;
+                let mut out = vec![];
+                let mut ok = false;
+                while i < b.len() && i - s < 4000 {
+                    let c = b[i];
+                    i += 1;
+                    match c {
+                        b'(' => {
+                            depth += 1;
+                            if depth > 1 {
+                                out.push(c);
+                            }
+                        }
+                        b')' => {
+                            depth -= 1;
+                            if depth == 0 {
+                                ok = true;
+                                break;
+                            }
+                            out.push(c);
+                        }
+                        b'\\' if i < b.len() => {
+                            let e = b[i];
+                            i += 1;
+                            match e {
+                                b'n' => out.push(b'\n'),
+                                b'r' => out.push(b'\r'),
+                                b't' => out.push(b'\t'),
+                                b'b' => out.push(8),
+                                b'f' => out.push(12),
+                                b'0'..=b'7' => {
+                                    let mut v = (e - b'0') as u32;
+                                    let mut n = 1;
+                                    while n < 3 && i < b.len() && (b'0'..=b'7').contains(&b[i]) {
+                                        v = v * 8 + (b[i] - b'0') as u32;
+                                        i += 1;
+                                        n += 1;
+                                    }
+                                    out.push(v as u8);
+                                }
+                                b'\r' => {
+                                    if i < b.len() && b[i] == b'\n' {
+                                        i += 1;
+                                    }
+                                }
+                                b'\n' => {}
+                                other => out.push(other),
+                            }
+                        }
+                        other => out.push(other),
+                    }
+                }
+                if ok {
+                    toks.push((s, i, out));
+                }
+            }
+            b'<' if i + 1 < b.len() && b[i + 1] != b'<' && (i == 0 || b[i - 1] != b'<') => {
+                if let Some(e) = b[i..].iter().take(4000).position(|&c| c == b'>') {
+                    let inner: Vec<u8> = b[i + 1..i + e].iter().copied().filter(|c| !c.is_ascii_whitespace()).collect();
+                    if inner.iter().all(|c| c.is_ascii_hexdigit()) {
+                        let mut h = String::from_utf8(inner).unwrap();
+                        if h.len() % 2 == 1 {
+                            h.push('0');
+                        }
+                        if let Some(content) = unhex(&h) {
+                            toks.push((i, i + e + 1, content));
+                            i += e;
+                        }
+                    }
+                }
+                i += 1;
+            }
+            // stream data is not text
+            b's' if b[i..].starts_with(b"stream") && !(i >= 3 && &b[i - 3..i] == b"end") => match find(&b[i..], b"endstream") {
+                Some(k) => i += k + 9,
+                None => break,
+            },
+            _ => i += 1,
+        }
+    }
+    toks
+}
+
+fn find(h: &[u8], n: &[u8]) -> Option<usize> {
+    h.windows(n.len()).position(|w| w == n)
+}
+fn rfind(h: &[u8], n: &[u8]) -> Option<usize> {
+    h.windows(n.len()).rposition(|w| w == n)
+}
+
+/// Everything behind `pos` moved by `delta`: shift the offsets of a classic cross-reference table and
+/// startxref (documents with cross-reference streams are left as they are: one more fault).
+pub fn shift_offsets(b: &mut Vec<u8>, pos: usize, delta: i64) {
+    if delta == 0 {
+        return;
+    }
+    let sx = match rfind(b, b"startxref") {
+        Some(k) => k,
+        None => return,
+    };
+    let mut i = sx + 9;
+    while i < b.len() && b[i].is_ascii_whitespace() {
+        i += 1;
+    }
+    let ds = i;
+    while i < b.len() && b[i].is_ascii_digit() {
+        i += 1;
+    }
+    let old: i64 = match std::str::from_utf8(&b[ds..i]).ok().and_then(|s| s.parse().ok()) {
+        Some(v) => v,
+        None => return,
+    };
+    // startxref holds the position before the change if it is in front of it, else it is stale
+    let table = if old as usize > pos { old + delta } else { old };
+    b.splice(ds..i, table.to_string().bytes());
+    let mut i = table as usize;
+    if i + 4 > b.len() || &b[i..i + 4] != b"xref" {
+        return;
+    }
+    i += 4;
+    loop {
+        while i < b.len() && b[i].is_ascii_whitespace() {
+            i += 1;
+        }
+        // subsection header "first count"
+        let hs = i;
+        while i < b.len() && b[i].is_ascii_digit() {
+            i += 1;
+        }
+        if i == hs || i >= b.len() || b[i] != b' ' {
+            return;
+        }
+        i += 1;
+        let cs = i;
+        while i < b.len() && b[i].is_ascii_digit() {
+            i += 1;
+        }
+        let count: usize = match std::str::from_utf8(&b[cs..i]).ok().and_then(|s| s.parse().ok()) {
+            Some(v) => v,
+            None => return,
+        };
+        while i < b.len() && b[i].is_ascii_whitespace() {
+            i += 1;
+        }
+        for _ in 0..count.min(100_000) {
+            if i + 18 > b.len() || !b[i..i + 10].iter().all(|c| c.is_ascii_digit()) {
+                return;
+            }
+            let off: i64 = std::str::from_utf8(&b[i..i + 10]).unwrap().parse().unwrap();
+            if b[i + 17] == b'n' && off as usize > pos {
+                let t = format!("{:010}", off + delta);
+                b[i..i + 10].copy_from_slice(&t.as_bytes()[..10]);
+            }
+            i += 20;
+        }
     }
 }
 
@@ -235,17 +421,20 @@ pub struct Case {
     pub doc: Arc<Doc>,
     pub faults: Vec<Fault>,
     pub cfg: WalkCfg,
+    /// the password given to the library when it is not the document's own
+    pub pw: Option<Vec<u8>>,
 }
 impl Case {
     pub fn to_json(&self, property: &str) -> J {
         json!({"property": property, "doc": self.doc.to_json(), "faults": self.faults.iter().map(|f| f.to_json()).collect::<Vec<_>>(),
-            "tolerant": self.cfg.tolerant, "cached": self.cfg.cached, "stack": self.cfg.stack})
+            "tolerant": self.cfg.tolerant, "cached": self.cfg.cached, "stack": self.cfg.stack, "password_given": self.pw.as_ref().map(|p| hex(p))})
     }
     pub fn from_json(j: &J, repo: &str) -> Option<Case> {
         Some(Case {
             doc: Arc::new(Doc::from_json(j.get("doc")?, repo)?),
             faults: j.get("faults")?.as_array()?.iter().filter_map(Fault::from_json).collect(),
             cfg: WalkCfg { tolerant: j.get("tolerant")?.as_bool()?, cached: j.get("cached")?.as_bool()?, stack: j.get("stack")?.as_u64()? as usize },
+            pw: j.get("password_given").and_then(|p| p.as_str()).and_then(unhex),
         })
     }
     pub fn medium(&self) -> (Vec<u8>, Vec<&'static str>) {
@@ -258,7 +447,13 @@ impl Case {
         }
         (b, fired)
     }
+    pub fn password(&self) -> &[u8] {
+        self.pw.as_deref().unwrap_or(&self.doc.password)
+    }
 }
+
+const PASSWORDS: [&[u8]; 4] = [b"userpassword", b"ownerpassword", b"", b"wrong"];
+const STRING_LENGTHS: [usize; 19] = [0, 1, 15, 16, 31, 32, 33, 47, 48, 49, 127, 128, 176, 177, 200, 255, 256, 1000, 5000];
 
 pub fn verdicts(r: &WalkResult) -> Vec<(String, String)> {
     let mut v = vec![];
@@ -278,6 +473,11 @@ pub struct C01 {
     docs: Vec<Arc<Doc>>,
     small: Vec<usize>,
     enum_starts: Vec<u64>,
+    /// truncation / bit flip cases
+    enum_bytes: u64,
+    /// encrypted corpus documents x string token x new length x password given
+    enc_cases: Vec<(usize, usize, usize, usize)>,
+    enc_docs: Vec<usize>,
     enum_total: u64,
     base_outcome: BTreeMap<(String, usize), u64>,
     prepared: Option<Tier>,
@@ -285,7 +485,7 @@ pub struct C01 {
 
 impl C01 {
     pub fn new() -> C01 {
-        C01 { pool: None, docs: vec![], small: vec![], enum_starts: vec![], enum_total: 0, base_outcome: BTreeMap::new(), prepared: None }
+        C01 { pool: None, docs: vec![], small: vec![], enum_starts: vec![], enum_bytes: 0, enc_cases: vec![], enc_docs: vec![], enum_total: 0, base_outcome: BTreeMap::new(), prepared: None }
     }
     fn prepare(&mut self, repo: &str, seed: u64, tier: Tier) {
         if self.prepared == Some(tier) {
@@ -319,11 +519,26 @@ impl C01 {
             // every truncation point (quick + thorough); every single-bit flip (thorough)
             total += if tier == Tier::Quick { n } else { n + 8 * n };
         }
+        let enc_docs: Vec<usize> = (0..docs.len()).filter(|&i| !docs[i].password.is_empty()).collect();
+        let mut enc_cases = vec![];
+        for &d in &enc_docs {
+            let n = string_tokens(&docs[d].bytes).len();
+            for t in 0..n {
+                for l in 0..STRING_LENGTHS.len() {
+                    for p in 0..PASSWORDS.len() {
+                        enc_cases.push((d, t, l, p));
+                    }
+                }
+            }
+        }
         self.pool = Some(pool);
         self.docs = docs;
         self.small = small;
         self.enum_starts = starts;
-        self.enum_total = total;
+        self.enum_bytes = total;
+        self.enum_total = total + enc_cases.len() as u64;
+        self.enc_cases = enc_cases;
+        self.enc_docs = enc_docs;
         self.prepared = Some(tier);
     }
     fn random_runs(tier: Tier) -> u64 {
@@ -333,6 +548,16 @@ impl C01 {
         }
     }
     fn enum_case(&self, i: u64) -> Case {
+        if i >= self.enum_bytes {
+            let (d, t, l, p) = self.enc_cases[(i - self.enum_bytes) as usize];
+            let c = CONFIGS[(i % 4) as usize];
+            return Case {
+                doc: self.docs[d].clone(),
+                faults: vec![Fault::StringResize { index: t, len: STRING_LENGTHS[l], fill: 0 }],
+                cfg: WalkCfg { tolerant: c.0, cached: c.1, stack: c.2 },
+                pw: Some(PASSWORDS[p].to_vec()),
+            };
+        }
         let idx = match self.enum_starts.binary_search(&i) {
             Ok(k) => k,
             Err(k) => k - 1,
@@ -342,12 +567,13 @@ impl C01 {
         let n = doc.bytes.len() as u64;
         let fault = if r < n { Fault::Truncate { len: r as usize } } else { Fault::BitFlip { pos: ((r - n) / 8) as usize, bit: ((r - n) % 8) as u8 } };
         let c = CONFIGS[(i % 4) as usize];
-        Case { doc, faults: vec![fault], cfg: WalkCfg { tolerant: c.0, cached: c.1, stack: c.2 } }
+        Case { doc, faults: vec![fault], cfg: WalkCfg { tolerant: c.0, cached: c.1, stack: c.2 }, pw: None }
     }
     fn random_fault(&self, rng: &mut Rng, doc: &Doc) -> Fault {
         let n = doc.bytes.len().max(1);
         let sectors = (n + SECTOR - 1) / SECTOR;
-        match rng.below(19) {
+        match rng.below(21) {
+            19 | 20 => Fault::StringResize { index: rng.usize(4096), len: *rng.pick(&STRING_LENGTHS), fill: *rng.pick(&[0u8, 0xff, b'A']) },
             16 | 17 => Fault::HexToken { index: rng.usize(4096), text: rng.pick(&["<>", "<0>", "<FFFFFFFFFF>", "<00>", "< >", "<0000", "<D800>", "<FFFF>"]).to_string() },
             18 => Fault::NameToken { index: rng.usize(4096), text: rng.pick(&["/", "/#", "/A#4", "/Identity", "/Type", "/#00", "/DeviceN", "/Pattern", "/Indexed"]).to_string() },
             0..=3 => Fault::BitFlip { pos: rng.usize(n), bit: rng.below(8) as u8 },
@@ -374,6 +600,14 @@ impl C01 {
         if doc.bytes.len() > 100_000 && !rng.chance(1, 6) {
             doc = self.docs[rng.usize(self.docs.len())].clone();
         }
+        // the few encrypted documents get a share of their own, and not always their own password
+        let mut pw = None;
+        if !self.enc_docs.is_empty() && rng.chance(1, 12) {
+            doc = self.docs[*rng.pick(&self.enc_docs)].clone();
+        }
+        if !doc.password.is_empty() && rng.chance(1, 3) {
+            pw = Some(rng.pick(&PASSWORDS).to_vec());
+        }
         let k = match rng.below(10) {
             0..=5 => 1,
             6..=8 => 2,
@@ -381,7 +615,7 @@ impl C01 {
         };
         let faults = (0..k).map(|_| self.random_fault(&mut rng, &doc)).collect();
         let c = CONFIGS[rng.usize(4)];
-        Case { doc, faults, cfg: WalkCfg { tolerant: c.0, cached: c.1, stack: c.2 } }
+        Case { doc, faults, cfg: WalkCfg { tolerant: c.0, cached: c.1, stack: c.2 }, pw }
     }
     fn shrink(&self, case: &Case, sig: &str) -> Case {
         let mut best = case.clone();
@@ -394,7 +628,7 @@ impl C01 {
                 c.faults.remove(k);
                 budget -= 1;
                 let (b, _) = c.medium();
-                let r = walk(&b, &c.doc.password, c.cfg, None);
+                let r = walk(&b, c.password(), c.cfg, None);
                 if verdicts(&r).iter().any(|(s, _)| s == sig) {
                     best = c;
                     progress = true;
@@ -414,7 +648,7 @@ impl Check for C01 {
         CheckInfo {
             id: "C01",
             level: "fault_enumeration",
-            rule: "one case = a valid stored document (corpus incl. encrypted files opened with their passwords, and generated documents) + a sequence of at-rest storage faults applied before open (bit flip, byte set, truncation/EOF anywhere, 512-byte sector zeroed / duplicated / swapped, splice from another stored file, digit run replaced by a boundary number, junk prefix, token-aligned overwrite of a hexadecimal string or name token) + {strict, tolerant} x {cached, uncached} x {2 MiB, 8 MiB stack}; the walker makes every read call (load, pages and inherited attributes, resources, fonts with widths / ToUnicode / embedded data, images raw and decoded, forms, content operators, functions and colour spaces, name and number trees, outlines, every object below /Size raw and typed, recovery scan), each under catch_unwind, under allocation / work meters, in a worker process whose death is observed. Enumerated part: every truncation point (quick: 3 small documents; thorough: all documents <= 4 KiB) and every single-bit flip (thorough). Non-trivial = the fault changed the outcome (Ok/Err pattern of the calls) relative to the unfaulted document; distinct = hash of (document, faults, configuration)",
+            rule: "one case = a valid stored document (corpus incl. encrypted files opened with their passwords, and generated documents) + a sequence of at-rest storage faults applied before open (bit flip, byte set, truncation/EOF anywhere, 512-byte sector zeroed / duplicated / swapped, splice from another stored file, digit run replaced by a boundary number, junk prefix, token-aligned overwrite of a hexadecimal string or name token, a string token rewritten with another length with the classic cross-reference table shifted behind it) + for encrypted documents the password given (their user password, their owner password, the empty one, a wrong one) + {strict, tolerant} x {cached, uncached} x {2 MiB, 8 MiB stack}; the walker makes every read call (load, pages and inherited attributes, resources, fonts with widths / ToUnicode / embedded data, images raw and decoded, forms, content operators, functions and colour spaces, name and number trees, outlines, every object below /Size raw and typed, recovery scan), each under catch_unwind, under allocation / work meters, in a worker process whose death is observed. Enumerated part: every truncation point (quick: 3 small documents; thorough: all documents <= 4 KiB) and every single-bit flip (thorough), and for the encrypted corpus files every string token x 19 lengths x 4 passwords (both tiers). Non-trivial = the fault changed the outcome (Ok/Err pattern of the calls) relative to the unfaulted document; distinct = hash of (document, faults, configuration)",
             assumptions: vec![
                 "covers 'valid file + storage faults', not all byte strings and not texts produced by a PDF grammar (the other half of the property's quantifier)".into(),
                 "resource bound: peak live bytes <= 64 MiB + 64 x (input + bytes produced by stream filters), allocation calls <= 2e6 + 2000 x the same, single request <= 256 MiB and live bytes <= 512 MiB (hard caps: the request is refused, the process aborts, the supervisor observes it), log events <= 1e6 + 1000 x input, 20 s wall clock per case as backstop".into(),
@@ -424,7 +658,7 @@ impl Check for C01 {
             components_real: vec!["pdf crate (all of it, incl. decryption and all stream filters)", "globalcache SyncCache", "process allocator (metered) and thread stacks of the stated sizes"],
             components_stub: vec![],
             per_run_timeout_s: 20,
-            required_probes: vec!["fault_bitflip", "fault_truncate", "fault_sector_zero", "fault_sector_dup", "fault_sector_swap", "fault_splice", "fault_digitrun", "fault_junk_prefix", "fault_byteset", "fault_hex_token", "fault_name_token", "outcome_changed"],
+            required_probes: vec!["fault_bitflip", "fault_truncate", "fault_sector_zero", "fault_sector_dup", "fault_sector_swap", "fault_splice", "fault_digitrun", "fault_junk_prefix", "fault_byteset", "fault_hex_token", "fault_name_token", "fault_string_resize", "opened_with_another_password", "outcome_changed"],
             exhaustive: false,
         }
     }
@@ -454,15 +688,18 @@ impl Check for C01 {
             let r = walk(&case.doc.bytes, &case.doc.password, case.cfg, None);
             // the unfaulted documents must walk cleanly, otherwise that is reported too
             for (sig, detail) in verdicts(&r) {
-                let c = Case { doc: case.doc.clone(), faults: vec![], cfg: case.cfg };
+                let c = Case { doc: case.doc.clone(), faults: vec![], cfg: case.cfg, pw: None };
                 rep.violations.push(Violation { signature: sig, detail, case: c.to_json("C01") });
             }
             self.base_outcome.insert(base_key.clone(), r.outcome);
         }
-        let r = walk(&bytes, &case.doc.password, case.cfg, None);
+        let r = walk(&bytes, case.password(), case.cfg, None);
+        if case.pw.is_some() {
+            rep.count("opened_with_another_password", 1);
+        }
         let mut h = Hasher64::new();
         h.str(&case.doc.label);
-        h.str(&format!("{:?}", case.faults));
+        h.str(&format!("{:?} {:?}", case.faults, case.pw));
         h.u64(cfg_idx as u64);
         // the outcome (Ok/Err pattern of all calls, panics, meters) is part of the trace: the
         // determinism self-check compares it across processes
@@ -507,7 +744,7 @@ impl Check for C01 {
             None => return vec![],
         };
         let (bytes, _) = c.medium();
-        let r = walk(&bytes, &c.doc.password, c.cfg, None);
+        let r = walk(&bytes, c.password(), c.cfg, None);
         verdicts(&r).into_iter().map(|(s, d)| Violation { signature: s, detail: d, case: case.clone() }).collect()
     }
 }
